@@ -332,6 +332,28 @@ func c15TogetherBody(capacity uint32, second string) func() {
 		}
 		vrt.Quiet(false)
 		sa, sb := w.held[0], w.held[1]
+		if second == "callback-running" {
+			// the caller uses its pooled stream in callback mode: the answer has arrived, OnData is running (it takes 5 virtual
+			// ms and consumes nothing) - at that moment the caller gives the stream back. It must end up kept or closed.
+			w.op("Pb")
+			rc := &recordingCallbacks{st: sa}
+			rc.onData = func(r BufferReader) { vrt.Sleep(5 * ms) }
+			t1 := vrt.GoProc("caller0", 1, func() {
+				sa.SetCallbacks(rc)
+				c09Flush(sa, int(sa.id), 0, 5)
+				vrt.Point("wait-callback", func() bool { return rc.running > 0 || rc.calls > 0 })
+				w.held[0] = nil
+				w.sm.PutBack(sa)
+			})
+			vrt.WaitThreads(t1)
+			vrt.WaitIdle(vrt.Second)
+			if a := w.p.c.GetActiveStreamCount(); a != w.pooled() {
+				vrt.Failf("known:pool-drops-without-close", "a stream given back while its data callback was running: the session counts %d active streams, the pool keeps %d, nobody holds one (stream state %d)", a, w.pooled(), sa.getStreamState())
+			}
+			w.finish("give-back during a running callback")
+			vrt.Outcome(fmt.Sprintf("callback-running pooled=%d calls=%d", w.pooled(), rc.calls))
+			return
+		}
 		if second == "session-closed" {
 			// the client session is closed (Session.Close has RETURNED) - its teardown, which closes the streams, is posted
 			// to the event loop and may not have run yet; then the caller gives its stream back and asks for one
@@ -556,6 +578,7 @@ func TestVerif_C15(t *testing.T) {
 		{"C15/putback-together-cap2", c15TogetherBody(2, "put")},
 		{"C15/putback-while-get-cap1", c15TogetherBody(1, "get")},
 		{"C15/putback-get-after-session-close", c15TogetherBody(2, "session-closed")},
+		{"C15/putback-while-callback-runs", c15TogetherBody(2, "callback-running")},
 	} {
 		o := vrt.Options{Bound: b, StepLimit: 50000, ShardI: w.shardI, ShardN: w.shardN}
 		w.explore(fmt.Sprintf("%s-bound%d", sc.name, b), nil, o, sc.body)
